@@ -1,8 +1,11 @@
 """C14: query / generate / convert / write operations never modify their inputs; documented copies share no
-mutable state.  Every listed operation is run on random charts/lists of all games, once and in sequences; all
+mutable state.  Static side: harness/tables/effects.py translates the source of every listed operation into an effect
+program and Coq decides purity / ownership on it (Props/C14.v obligations).  Dynamic side (this file): every listed
+operation is run on random charts/lists of all games, once and in sequences; all
 arguments are deep-snapshotted (values, columns, dtypes, row labels, list pointers, metadata fields) before and
 after; results documented as copies are probed for shared state (identity, shared memory, in-place mutation of
-the result followed by a re-comparison of the arguments).  Coq compares the observation with the store model."""
+the result followed by a re-comparison of the arguments).  Coq compares the observation with the store model and
+with the static verdicts of the programs the call ran (an operation the analysis calls pure must be observed pure)."""
 import copy
 import math
 import random
@@ -23,24 +26,43 @@ PROPS_MODULE = "Props.C14"
 RULE = ("every listed operation (filter after/before/between/[mask], slice, sorted, append, move_start_to/move_end_to, deepcopy, item access, "
         "Map.rate, MapSet.rate, the 16 converters, write of osu/Quaver/StepMania/BMS, full_ln, hitsound_copy, sv_normalize, scroll_speed, "
         "dominant_bpm, Pattern.from_note_lists/group/combinations) on random charts and lists of all five games, singly and in sequences "
-        "of 2-4 operations on the same inputs; one observation per call; non-trivial = an argument has >= 2 rows in some list")
+        "of 2-4 operations on the same inputs; one observation per call, compared with the store model AND with the verdicts of the static "
+        "effect analysis for the reamber functions the call ran; non-trivial = an argument has >= 2 rows in some list")
 ASSUMPTIONS = [
     "an argument is 'changed' when anything reachable from it differs afterwards: cell values, column names/order, dtypes, row labels, "
     "the DataFrame object a list points to, the list objects of a chart, metadata fields",
-    "results documented as copies: deepcopy, rate, move_start_to/move_end_to, conversion, full_ln, hitsound_copy; for the other "
-    "operations only 'inputs unchanged' is claimed (TimedList(tl) and stack() alias by design and are not in the claim)",
-    "pandas view/copy behaviour is observed, not modelled: the model abstracts an argument's content to a version counter",
+    "results documented as copies: deepcopy, rate, move_start_to/move_end_to, conversion (and ConvertBase.cast), full_ln, hitsound_copy; "
+    "for the other operations only 'inputs unchanged' is claimed (TimedList(tl) and stack() alias by design and are not in the claim)",
+    "static tie: each listed operation and every reamber function it reaches is translated from the source of the tree under test into an "
+    "effect program (alloc / alias / load / hold / write / call / return; anything unclassified is EUnknown and fails); calls are resolved BY "
+    "NAME to every definition in the package (no receiver types), recursion is folded onto the running activation; what builtin / pandas / "
+    "numpy callees do comes from the reviewed tables in harness/tables/effects.py (printed in docs/C14.md)",
+    "the analysis is flow-insensitive and field-insensitive over one abstract object ARG (all arguments and what they reach) and one "
+    "object per allocation site; parameters annotated with an immutable type (float, int, bool, str, bytes) are values, not arguments; "
+    "dataclass fields / attributes annotated with an immutable type hold values (annotations are trusted for that); dict keys are immutable",
+    "the soundness theorem is about the store abstraction (objects with versions): Python's heap, pandas' copy/view behaviour and object-"
+    "dtype cells are covered by the tables and re-observed on every run by the snapshots and the identity / shared-memory / mutation probes",
+    "PtnCombo.combinations takes callbacks: it is run and observed but has no effect program",
 ]
-TRUSTED = ["harness/maps.py; the deep snapshot and the aliasing probes in this file"]
+TRUSTED = ["harness/maps.py; the deep snapshot and the aliasing probes in this file",
+           "harness/tables/effects.py: the source-to-effect-program translator and its callee tables (fresh / shallow / view / mutate, immutable "
+           "attribute and annotation lists, frame attributes, hook names, the column-store rule used by ConvertBase.cast) - see docs/C14.md",
+           "Store/EffectsInline.v `inline` as the meaning of a call (callee bodies renamed apart, parameters bound to arguments)"]
 MANIFEST = dict(
-    text="Coq store model (objects with versions; alloc / alias / in-place write) with a purity analysis proved sound for every program and "
-         "any number of arguments: a program that writes only to objects it allocated leaves every argument unchanged and its owned results "
-         "share no state with them; each library operation is such a program, sequences compose. Tied to the code by observing, for every "
-         "listed operation on charts/lists of all five games, which arguments changed (deep snapshots) and which results share mutable state "
-         "with them (identity, shared memory, mutation probes) and comparing with the model's prediction.",
-    note="Partial by nature: pandas' copy/view rules are an observed oracle, not modelled; the theorem is about the store abstraction. "
-         "Trusted: Coq kernel+VM, the snapshot/probe code.",
-    technique="Coq proof of a purity analysis over a store model + observation-based correspondence",
+    text="Coq store model (objects with versions; alloc / alias / in-place write). Every listed operation and every reamber function it "
+         "reaches is translated from the live source into an effect program (Generated/Tables.v, regenerated on every run); Coq inlines the "
+         "callees and runs a may-alias analysis (abstract objects: ARG = the arguments and all they reach, one object per allocation site; "
+         "inclusion constraints; result checked by a verified checker). Proved for every program: if the checked state shows no write to an "
+         "object that may be an argument, no run of the program (any order / multiplicity of its steps) changes an argument version; if no "
+         "argument is reachable from the result, the result is a fresh object. Obligations by vm_compute on the regenerated table: all listed "
+         "operations and all protocol hooks (__getitem__, __iter__, __len__, comparisons, __deepcopy__, properties) are pure, all documented "
+         "copies are owned. The same operations are run on charts/lists of all five games, singly and in sequences; deep snapshots and identity "
+         "/ shared-memory / mutation probes are compared with the store model and with the static verdict of the functions each call ran.",
+    note="Partial by nature: the theorem is about the store abstraction; what pandas / numpy / builtin callees do is a reviewed table "
+         "(trusted, re-observed by the probes), calls are resolved by name without types, annotations are trusted for immutability. "
+         "Trusted: Coq kernel+VM, the translator and its tables, the snapshot/probe code.",
+    technique="source-to-effect-program translation + Coq may-alias analysis with checked result, proved sound over a store model; "
+              "observation-based correspondence (snapshots, aliasing probes)",
     design="4/C14")
 
 LIST_OPS = ["after", "before", "between", "mask", "slice", "sorted", "append", "move_start_to", "move_end_to", "deepcopy", "getitem", "iter",
@@ -222,96 +244,131 @@ def _shares(res, arg):
 
 
 # ------------------------------------------------------------------ operations
-def _run(op, seed, game, m, m2, container):
-    """-> (args, results, kind)   kind in {'query','fresh'}"""
+def _plan(op, seed, game, m, m2, container):
+    """-> (args, call, kind, funcs) or None when the operation does not apply to these inputs (nothing is called)
+    call() -> list of results; kind in {'query','fresh'}; funcs = the reamber functions the call runs (as Python's own
+    dispatch resolves them on these objects): the programs of the generated effect table the observation is compared with"""
     r = random.Random(seed)
     names = [k for k, v in m.objs.items()]
     lst = m.objs[r.choice(names)]
+    L = type(lst)
     offs = lst.offset.tolist() or [0.0]
     t = r.choice(offs)
     if op == "after":
-        return [lst], [lst.after(t, include_end=r.random() < 0.5)], "fresh"
+        inc = r.random() < 0.5
+        return [lst], lambda: [lst.after(t, include_end=inc)], "fresh", [L.after, L.__getitem__]
     if op == "before":
-        return [lst], [lst.before(t, include_end=r.random() < 0.5)], "fresh"
+        inc = r.random() < 0.5
+        return [lst], lambda: [lst.before(t, include_end=inc)], "fresh", [L.before, L.__getitem__]
     if op == "between":
-        return [lst], [lst.between(min(offs), t, include_ends=(True, r.random() < 0.5))], "fresh"
+        inc = r.random() < 0.5
+        return [lst], lambda: [lst.between(min(offs), t, include_ends=(True, inc))], "fresh", [L.between, L.after, L.before, L.__getitem__]
     if op == "mask":
-        return [lst], [lst[lst.offset >= t]], "fresh"
+        return [lst], lambda: [lst[lst.offset >= t]], "fresh", [L.__getitem__]
     if op == "slice":
-        return [lst], [lst[0:max(1, len(lst) // 2)]], "fresh"
+        return [lst], lambda: [lst[0:max(1, len(lst) // 2)]], "fresh", [L.__getitem__, L.__len__]
     if op == "sorted":
-        return [lst], [lst.sorted(reverse=r.random() < 0.5)], "fresh"
+        rev = r.random() < 0.5
+        return [lst], lambda: [lst.sorted(reverse=rev)], "fresh", [L.sorted]
     if op == "append":
         other = m2.objs[[k for k in m2.objs if type(m2.objs[k]) is type(lst)][0]]
-        return [lst, other], [lst.append(other, sort=r.random() < 0.5)], "fresh"
+        srt = r.random() < 0.5
+        return [lst, other], lambda: [lst.append(other, sort=srt)], "fresh", [L.append, L.sorted]
     if op in ("move_start_to", "move_end_to"):
         if not len(lst):
-            return [lst], [], "query"
-        return [lst], [getattr(lst, op)(r.choice([0.0, 1000.0, -250.0]))], "fresh"
+            return None
+        to = r.choice([0.0, 1000.0, -250.0])
+        return [lst], lambda: [getattr(lst, op)(to)], "fresh", [getattr(L, op), L.deepcopy, L.__deepcopy__,
+                                                                 L.first_offset if op == "move_start_to" else L.last_offset]
     if op == "deepcopy":
-        return [lst], [lst.deepcopy()], "fresh"
+        return [lst], lambda: [lst.deepcopy()], "fresh", [L.deepcopy, L.__deepcopy__]
     if op == "getitem":
         if not len(lst):
-            return [lst], [], "query"
-        return [lst], [lst[r.randrange(len(lst))].data], "fresh"
+            return None
+        i = r.randrange(len(lst))
+        return [lst], lambda: [lst[i].data], "fresh", [L.__getitem__, L.__len__]
     if op == "iter":
-        return [lst], [[i.data for i in lst]], "fresh"
+        return [lst], lambda: [[i.data for i in lst]], "fresh", [L.__iter__]
     if op == "first_last":
-        lst.first_offset(), lst.last_offset(), len(lst), lst.offset.tolist()
-        return [lst], [], "query"
+        def q():
+            lst.first_offset(), lst.last_offset(), len(lst), lst.offset.tolist()
+            return []
+        return [lst], q, "query", [L.first_offset, L.last_offset, L.__len__]
     if op == "rate":
-        return [m], [m.rate(r.choice([2.0, 0.5, 1.5]))], "fresh"
+        by = r.choice([2.0, 0.5, 1.5])
+        return [m], lambda: [m.rate(by)], "fresh", [type(m).rate]
     if op == "deepcopy_map":
-        return [m], [m.deepcopy()], "fresh"
+        return [m], lambda: [m.deepcopy()], "fresh", [type(m).deepcopy]
     if op == "rate_mapset":
-        return [container], [container.rate(r.choice([2.0, 0.5]))], "fresh"
+        by = r.choice([2.0, 0.5])
+        return [container], lambda: [container.rate(by)], "fresh", [type(container).rate]
     if op == "write":
-        if game == "osu":
-            m.write()
-        elif game == "qua":
-            m.write()
-        elif game == "bms":
+        if game in ("osu", "qua"):
+            return [m], lambda: (m.write(), [])[1], "query", [type(m).write]
+        if game == "bms":
             from reamber.bms.BMSChannel import BMSChannel
-            m.write(BMSChannel.BME)
-        elif game == "sm" and container is not None:
-            container.write()
-            return [container], [], "query"
-        return [m], [], "query"
+            return [m], lambda: (m.write(BMSChannel.BME), [])[1], "query", [type(m).write]
+        if game == "sm" and container is not None:
+            return [container], lambda: (container.write(), [])[1], "query", [type(container).write]
+        return None
     if op == "write_mapset":
         if game == "sm":
-            container.write()
-        return [container], [], "query"
+            return [container], lambda: (container.write(), [])[1], "query", [type(container).write]
+        return None
     if op == "full_ln":
         from reamber.algorithms.generate.full_ln import full_ln
-        return [m], [full_ln(m, gap=r.choice([0, 50, 150]), ln_as_hit_thres=r.choice([0, 100]))], "fresh"
+        gap, thr = r.choice([0, 50, 150]), r.choice([0, 100])
+        return [m], lambda: [full_ln(m, gap=gap, ln_as_hit_thres=thr)], "fresh", [full_ln]
     if op == "sv_normalize":
         from reamber.algorithms.generate.sv_normalize import sv_normalize
-        return [m], [sv_normalize(m, override_bpm=r.choice([None, 150.0]))], "fresh"
+        ob = r.choice([None, 150.0])
+        return [m], lambda: [sv_normalize(m, override_bpm=ob)], "fresh", [sv_normalize]
     if op == "scroll_speed":
         from reamber.algorithms.analysis.scroll_speed import scroll_speed
-        return [m], [scroll_speed(m, override_bpm=r.choice([None, 150.0]))], "fresh"
+        ob = r.choice([None, 150.0])
+        return [m], lambda: [scroll_speed(m, override_bpm=ob)], "fresh", [scroll_speed]
     if op == "dominant_bpm":
         from reamber.algorithms.utils.dominant_bpm import dominant_bpm
-        dominant_bpm(m)
-        return [m], [], "query"
+        return [m], lambda: (dominant_bpm(m), [])[1], "query", [dominant_bpm]
     if op == "hitsound_copy":
         from reamber.algorithms.osu.hitsound_copy import hitsound_copy
-        return [m, m2], [hitsound_copy(m, m2)], "fresh"
+        return [m, m2], lambda: [hitsound_copy(m, m2)], "fresh", [hitsound_copy]
     if op == "pattern":
         from reamber.algorithms.pattern.Pattern import Pattern
         from reamber.algorithms.pattern.combos.PtnCombo import PtnCombo
-        p = Pattern.from_note_lists([m.hits, m.holds], include_tails=r.random() < 0.5)
-        g = p.group(v_window=r.choice([0, 50, 1000]), h_window=r.choice([None, 1]), avoid_jack=r.random() < 0.5)
-        PtnCombo(g).combinations(size=2)
-        return [m.hits, m.holds], [p.df], "fresh"
+        tails, vw, hw, aj = r.random() < 0.5, r.choice([0, 50, 1000]), r.choice([None, 1]), r.random() < 0.5
+
+        def q():
+            p = Pattern.from_note_lists([m.hits, m.holds], include_tails=tails)
+            g = p.group(v_window=vw, h_window=hw, avoid_jack=aj)
+            PtnCombo(g).combinations(size=2)      # run and observed; not in the effect table (takes callbacks)
+            return [p.df]
+        return [m.hits, m.holds], q, "fresh", [Pattern.from_note_lists, Pattern.group]
     if op == "convert":
         import reamber.algorithms.convert as C
         name = r.choice(CONV[game])
         conv = getattr(C, name)
         arg = container if game in ("sm", "o2j") else m
         kw = {"raise_bad_mode": False} if name in ("BMSToQua", "OsuToQua", "OsuToSM", "SMToQua") else {}
-        return [arg], [conv.convert(arg, **kw)], "fresh"
+        return [arg], lambda: [conv.convert(arg, **kw)], "fresh", [conv.convert, conv.cast]
     raise ValueError(op)
+
+
+_OPS_CACHE = {}
+
+
+def _op_indices(funcs):
+    """indices (in Tables.effects.c14_effects, as generated from the tree under test) of the programs translated from
+    these functions; a function without a listed program is a harness error (fail closed)"""
+    from ..tables import effects as EF
+    out = []
+    for f in funcs:
+        k = getattr(f, "__func__", f)
+        if k not in _OPS_CACHE:
+            _OPS_CACHE[k] = EF.function_index(f)
+        if _OPS_CACHE[k] not in out:
+            out.append(_OPS_CACHE[k])
+    return out
 
 
 def execute(case):
@@ -336,10 +393,16 @@ def execute(case):
         # snapshot everything that could be an argument
         universe = [m, m2] + ([container] if container is not None else [])
         before_all = [snap(u) for u in universe]
+        plan = _plan(op, o["seed"], game, m, m2, container)
+        if plan is None:
+            obs.append({"op": op, "nocall": True})       # does not apply to these inputs: nothing was called
+            continue
+        args, call, kind, funcs = plan
+        ops = _op_indices(funcs)
         try:
-            args, results, kind = _run(op, o["seed"], game, m, m2, container)
+            results = call()
         except (ValueError, KeyError, IndexError, TypeError, AttributeError, ZeroDivisionError, AssertionError) as e:
-            obs.append({"op": op, "skipped": type(e).__name__ + ": " + str(e)[:80],
+            obs.append({"op": op, "skipped": type(e).__name__ + ": " + str(e)[:80], "ops": ops,
                         "universe_unchanged": before_all == [snap(u) for u in universe]})
             continue
         after_all = [snap(u) for u in universe]
@@ -380,20 +443,26 @@ def execute(case):
                         m2 = M.build_map(case["map2"])
                 aliases.append(al)
         obs.append({"op": op, "kind": kind, "nargs": len(args), "copy": is_copy, "changed": changed, "aliases": aliases,
-                    "others_changed": others_changed})
+                    "others_changed": others_changed, "ops": ops})
     return {"obs": obs}
+
+
+def _emitted(out):
+    """the observations that become Coq terms (an operation that did not apply called nothing: no term)"""
+    return [o for o in out["obs"] if not o.get("nocall")]
 
 
 def emit_all(case, out):
     terms = []
-    for o in out["obs"]:
+    for o in _emitted(out):
+        ops = F.lst([F.nat(i) for i in o["ops"]])
         if "skipped" in o:
-            terms.append(f"CObs KQuery 1%nat false {F.lst([F.boolean(not o['universe_unchanged'])])} []")
+            terms.append(f"CObs KQuery 1%nat false {F.lst([F.boolean(not o['universe_unchanged'])])} [] {ops}")
             continue
         k = "KQuery" if o["kind"] == "query" else "KFresh"
         al = F.lst(["None" if a is None else f"(Some {F.nat(a)})" for a in o["aliases"]])
         ch = [c or o["others_changed"] for c in o["changed"]]
-        terms.append(f"CObs {k} {F.nat(o['nargs'])} {F.boolean(o['copy'])} {F.lst([F.boolean(c) for c in ch])} {al}")
+        terms.append(f"CObs {k} {F.nat(o['nargs'])} {F.boolean(o['copy'])} {F.lst([F.boolean(c) for c in ch])} {al} {ops}")
     return terms
 
 
@@ -402,19 +471,19 @@ def nontrivial(case, out):
 
 
 def bucket(case, out):
-    return case["game"] + "/" + "+".join(o["op"] + ("(skip)" if "skipped" in o else "") for o in out["obs"])
+    return case["game"] + "/" + "+".join(o["op"] + ("(skip)" if "skipped" in o else "(n/a)" if o.get("nocall") else "") for o in out["obs"])
 
 
 def classify(case, out, kind, sub=None):
     if sub is not None:
-        o = out["obs"][sub]
+        o = _emitted(out)[sub]
         if o["op"] == "sv_normalize" and o.get("changed") == [True]:
             return "sv-normalize-adds-column-to-input"
     return None
 
 
 def describe(case, out):
-    return f"{case['game']} " + ", ".join(f"{o['op']}:changed={o.get('changed')}:aliases={o.get('aliases')}" for o in out["obs"])
+    return f"{case['game']} " + ", ".join(f"{o['op']}:changed={o.get('changed')}:aliases={o.get('aliases')}:programs={o.get('ops')}" for o in out["obs"])
 
 
 def shrink(case):
